@@ -4,6 +4,7 @@ import (
 	"encoding/hex"
 	"net"
 	"slices"
+	"sync"
 	"sync/atomic"
 	"time"
 
@@ -47,6 +48,10 @@ type session struct {
 	muxer           *muxer
 	reader          *stream.Reader
 	onUnreadHook    func()
+
+	// held from the moment the session is handed to the muxer until the end of initialize(),
+	// in order to prevent close2() from running on a half-initialized session.
+	closeMutex sync.Mutex
 }
 
 func (s *session) initialize(ctx *gin.Context) error {
@@ -103,6 +108,9 @@ func (s *session) initialize(ctx *gin.Context) error {
 
 	s.muxer = muxer
 
+	s.closeMutex.Lock()
+	defer s.closeMutex.Unlock()
+
 	muxerFormats, err := s.muxer.addSession(s)
 	if err != nil {
 		s.path.RemoveReader(defs.PathRemoveReaderReq{Author: s})
@@ -147,6 +155,9 @@ func (s *session) Close() {
 }
 
 func (s *session) close2(err error) {
+	s.closeMutex.Lock()
+	defer s.closeMutex.Unlock()
+
 	s.stream.RemoveReader(s.reader)
 
 	s.path.RemoveReader(defs.PathRemoveReaderReq{Author: s})
